@@ -139,6 +139,40 @@ def random_mcircuit(cirq, rng, wires=None, qudits=False, mid=True, cc=True, chan
     return c, qs
 
 
+def pauli_measure_circuit(cirq, rng):
+    """Entangling prefix, a measurement of a Pauli observable (weight 1-3, sign +-), then something that looks at the measured qubits:
+    an ordinary measurement, a second Pauli measurement, or a gate controlled by the recorded bit."""
+    n = rng.randint(2, 3)
+    qs = cirq.LineQubit.range(n)
+    c = cirq.Circuit()
+    for _ in range(rng.randint(1, 4)):
+        r = rng.random()
+        if r < 0.45:
+            a, b = rng.sample(range(n), 2)
+            c.append(rng.choice([cirq.CNOT, cirq.CZ, cirq.ISWAP ** 0.5])(qs[a], qs[b]))
+        else:
+            g = rng.choice([cirq.H, cirq.X ** 0.5, cirq.Y ** 0.25, cirq.S, cirq.rx(0.7), cirq.T])
+            c.append(g(qs[rng.randrange(n)]))
+
+    def pm(key):
+        k = rng.randint(1, n)
+        ws = rng.sample(range(n), k)
+        paulis = [rng.choice([cirq.X, cirq.Y, cirq.Z]) for _ in ws]
+        obs = cirq.DensePauliString(paulis, coefficient=rng.choice([1, 1, -1]))
+        return cirq.PauliMeasurementGate(obs, key=key).on(*[qs[w] for w in ws])
+    c.append(pm('p'), strategy=cirq.InsertStrategy.NEW)
+    r = rng.random()
+    if r < 0.4:
+        ws = rng.sample(range(n), rng.randint(1, n))
+        c.append(cirq.measure(*[qs[w] for w in ws], key='m'))
+    elif r < 0.7:
+        c.append(pm('r'), strategy=cirq.InsertStrategy.NEW)
+    else:
+        c.append(rng.choice([cirq.X, cirq.H, cirq.Z ** 0.5])(qs[rng.randrange(n)]).with_classical_controls('p'))
+        c.append(cirq.measure(*qs, key='m'))
+    return c, qs
+
+
 def clifford_deep(cirq, rng):
     """Clifford gates interleaved with many single-qubit measurements (distinct keys): later outcomes depend on how earlier
     measurements updated the stabilizer AND destabilizer rows of the tableau / the CH form."""
